@@ -36,7 +36,7 @@ RULE = ('checksum: sizes k*cs-1, k*cs, k*cs+1 (k=0..3) x chunk sizes {1,2,7,64,4
         'errno of errno.errorcode x every directory/path state. non-trivial = non-empty content or an injected '
         'fault or a directory-tree state; distinct by the full parameter tuple')
 REQUIRED_CLAUSES = [
-    'checksum-equals-whole-digest',
+    'documented-keyword-call', 'checksum-equals-whole-digest', 'errno-decides-not-exception-class', 'tempfile-dirs-removed-between-calls',
     'last-bytes-tail-and-count', 'last-bytes-n0', 'last-bytes-n-exceeds-size',
     'seek-EINVAL-fallback', 'seek-other-errno',
     'tempfile-new-distinct', 'tempfile-content-exact', 'tempfile-existing-untouched',
@@ -105,7 +105,18 @@ def errname(code):
     return str(code)
 
 
-def make_fault(code):
+class BackendError(OSError):
+    """An OSError subclass of the caller's own (storage back ends raise such things): errno says what happened, the
+    class is not one of the builtin FileNotFoundError / FileExistsError the interpreter maps errnos to."""
+
+
+def make_fault(code, style='plain'):
+    if style == 'subclass' and isinstance(code, int):
+        return BackendError(code, 'injected (own OSError subclass)')
+    if style == 'late-errno' and isinstance(code, int):
+        e = OSError('injected, errno assigned afterwards')
+        e.errno = code
+        return e
     if code == 'noerrno':
         return OSError('injected, no errno')
     if code == 'runtime':
@@ -361,8 +372,16 @@ def _ev_tmpfile(ctx, case, fu):
         elif case.get('explicit_none'):
             kw['path'] = None
         tempfile.tempdir = deftmp
+        if case.get('ensure_first') and not case['default_dir']:
+            fu.ensure_tree(target)                      # the directory is made through ensure_tree first
         for callno, csize in enumerate(case['sizes']):
             data = content(csize, case['cseed'] + callno)
+            if callno and case.get('remove_between') and not case['default_dir'] and missing:
+                # somebody removes the directories again between two calls: "creating missing directories first"
+                # holds for every call, not only for the first one on a path
+                shutil.rmtree(os.path.join(base, missing[0]), ignore_errors=True)
+                returned = []
+                ctx.clause('tempfile-dirs-removed-between-calls')
             before = _snapshot(d)
             dirs_missing = (not case['default_dir']) and not os.path.isdir(target)
             got, exc = _call(fu.write_to_tempfile, data, **kw)
@@ -418,7 +437,9 @@ def _ev_tmpfile(ctx, case, fu):
 def _ev_ensure_inject(ctx, case, fu):
     code, state, mode = case['code'], case['state'], case['mode']
     d = _casedir(ctx)
-    err = make_fault(code)
+    err = make_fault(code, case.get('style', 'plain'))
+    if case.get('style'):
+        ctx.clause('errno-decides-not-exception-class')
     calls = []
 
     def fake_makedirs(name, mode=0o777, exist_ok=False):
@@ -447,7 +468,7 @@ def _ev_ensure_inject(ctx, case, fu):
         after = _snapshot(d)
     finally:
         shutil.rmtree(d, ignore_errors=True)
-    ctx.case(('ensure-inject', code, state, mode, tuple(case.get('under', []))))
+    ctx.case(('ensure-inject', code, state, mode, tuple(case.get('under', [])), case.get('style')))
     absorb = code == errno.EEXIST and state in ('dir', 'appears')
     if not calls:
         if state == 'dir' and exc is None and after == before:
@@ -553,7 +574,9 @@ def _ev_ensure_real(ctx, case, fu):
 def _ev_delete_inject(ctx, case, fu):
     code, state = case['code'], case['state']
     d = _casedir(ctx)
-    err = make_fault(code)
+    err = make_fault(code, case.get('style', 'plain'))
+    if case.get('style'):
+        ctx.clause('errno-decides-not-exception-class')
     calls = []
 
     def fake_remove(*a, **k):
@@ -571,7 +594,7 @@ def _ev_delete_inject(ctx, case, fu):
         after = _snapshot(d)
     finally:
         shutil.rmtree(d, ignore_errors=True)
-    ctx.case(('delete-inject', code, state))
+    ctx.case(('delete-inject', code, state, case.get('style')))
     if not calls:
         ctx.fail('delete-uses-remove-callable', case, {'note': 'remove= callable was not called', 'exc': exc})
         return
@@ -678,6 +701,8 @@ EVALUATORS = {'cksum': _ev_cksum, 'last': _ev_last, 'seekfail': _ev_seekfail, 't
 
 def evaluate(ctx, case):
     from oslo_utils import fileutils
+    from vlib import callstyle
+    fileutils = callstyle.proxy(fileutils)
     EVALUATORS[case['kind']](ctx, case, fileutils)
 
 
@@ -776,6 +801,12 @@ def run(ctx):
             emit(dict(kind='ensure-inject', code=code, state=state, mode=0o750, under=['a', 'b']))
         for state in ('file', 'absent', 'dir'):
             emit(dict(kind='delete-inject', code=code, state=state))
+        if code in (errno.ENOENT, errno.EEXIST, errno.EACCES, errno.EPERM, errno.ENOTDIR, errno.EISDIR, errno.EBUSY, errno.EIO):
+            for style in ('subclass', 'late-errno'):
+                for state in ('dir', 'file', 'absent', 'appears'):
+                    emit(dict(kind='ensure-inject', code=code, state=state, mode=None, style=style))
+                for state in ('file', 'absent', 'dir'):
+                    emit(dict(kind='delete-inject', code=code, state=state, style=style))
         for size, n in ((10, 3), (10, 10), (10, 20), (0, 0), (0, 5), (4096, HUGE)):
             emit(dict(kind='seekfail', code=code, size=size, cseed=rs.getrandbits(16), n=n))
     for size in (0, 1, 10, 4096, 70000):
@@ -828,6 +859,10 @@ def run(ctx):
                           cseed=rs.getrandbits(30), suffix=suffixes[i % len(suffixes)],
                           prefix=prefixes[(i // 2) % len(prefixes)], default_dir=default_dir,
                           trailing_slash=(i % 5 == 0)))
+                if nmiss:
+                    emit(dict(kind='tmpfile', existing=names[:nex], missing=['n%d' % k for k in range(nmiss)],
+                              pre=0, sizes=[5, 6, 7], cseed=rs.getrandbits(30), suffix=None, prefix=None,
+                              default_dir=False, remove_between=True, ensure_first=bool(i % 2)))
     for j in range(6):
         emit(dict(kind='tmpfile', existing=[], missing=[], pre=j, sizes=[j, 100, 0], cseed=rs.getrandbits(30),
                   suffix=suffixes[j], prefix=prefixes[j], default_dir=True, explicit_none=bool(j % 2)))
@@ -841,6 +876,7 @@ def run(ctx):
                          for _ in range(rt.randrange(1, 5))],
                   cseed=rs.getrandbits(30), suffix=rt.choice(suffixes), prefix=rt.choice(prefixes),
                   default_dir=rt.random() < 0.1, explicit_none=rt.random() < 0.5,
+                  remove_between=rt.random() < 0.25, ensure_first=rt.random() < 0.2,
                   trailing_slash=rt.random() < 0.15))
 
 
